@@ -556,6 +556,10 @@ def c09(run, op, ctx, before, after):
         if kind in ("put", "post", "delete", "reupload") and ctx.get("success") and target_here:
             if members_changed and n_new != 1:
                 run.v("C09", "C09.commit-count", "%s: %s changed the members but added %d commits" % (path, kind, n_new), backend=c.backend, op=kind, n=n_new)
+            if not members_changed and n_new == 0 and kind == "put" and ctx.get("body") is not None and ctx.get("old_served") is not None:
+                up, old = ctx["body"], ctx["old_served"]
+                if up != old and not icalparse.semantically_equal(up, old):
+                    run.v("C09", "C09.change-without-commit", "%s: PUT %s acknowledged (%s) with new content but no commit was added and the old bytes are still served" % (path, ctx.get("rel"), ctx.get("status")), backend=c.backend)
             if not members_changed and n_new != 0:
                 run.v("C09", "C09.commit-for-noop", "%s: %s changed nothing but added %d commits" % (path, kind, n_new), backend=c.backend, op=kind)
             if not members_changed:
